@@ -15,7 +15,7 @@ LEVEL = 'proof'
 TRUSTED = ['uniqueness of what the postconditions characterise (T1): two objects that satisfy the same defining equations over the same inputs give the same results',
            'the contracts read back here are the ones discharged by C01/C02/C04/C05/C06/C08/C11 (the update harnesses are re-run by this check)']
 ASSUMPTIONS = ['representation invariant of Workspace (all buffers sized for the same segment count) -- established by Workspace::resize, the only code that sizes them']
-UNDECIDED_CLAUSES = ['bit-identity is not claimed: double as mathematical real', 'cubic propagateGrad is not under contract']
+UNDECIDED_CLAUSES = ['bit-identity is not claimed: double as mathematical real']
 CLASSES = ['CubicSplineND', 'QuinticSplineND', 'SepticSplineND']
 
 
@@ -34,8 +34,8 @@ def tasks(tier):
 BUILDERS = [(c, 'update', 4) for c in CLASSES] + [(c, 'update', 3) for c in CLASSES]
 QUERIES = ([(c, 'getEnergy', 0, ()) for c in CLASSES] + [(c, 'getEnergyPartialGradByCoeffs', 1, ('p_gdC',)) for c in CLASSES] +
            [(c, 'getEnergyPartialGradByTimes', 1, ('p_gdT',)) for c in CLASSES] +
-           [(c, m, 0, ()) for c in CLASSES[1:] for m in ('getEnergyGradTimes', 'getEnergyGradInnerPoints', 'getEnergyGradBoundary')] +
-           [(c, 'propagateGradInternal', 6, ('ws_lambda_', 'ws_gd_internal_', 'p_innerPointsGrad', 'p_gradByTimes', 'p_startGrads', 'p_endGrads')) for c in CLASSES[1:]])
+           [(c, m, 0, ()) for c in CLASSES for m in ('getEnergyGradTimes', 'getEnergyGradInnerPoints', 'getEnergyGradBoundary')] +
+           [(c, 'propagateGradInternal', 6, ('ws_lambda_', 'ws_gd_internal_', 'p_innerPointsGrad', 'p_gradByTimes', 'p_startGrads', 'p_endGrads')) for c in CLASSES])
 
 
 def is_old(n):
